@@ -6,7 +6,8 @@
    emulator turns bytes into the items of this model and the c04 monitor checks the
    emulated screen); the terminal's height enters only through
    [C04_frame_fits_rows] and [C04_redraw_needs_a_spare_row]. *)
-From MPB Require Import Base BaseProofs BarState Container ContainerProofs ContainerOut Term.
+From MPB Require Import Base BaseProofs BarState Container ContainerProofs ContainerOut Term GenChecks.
+From MPB.gen Require Import GenApi.
 
 (* every frame replaces exactly the live rows of the frame before it: what is above them
    (text, popped-out bars) is untouched, nothing of the old rows is left over, and the
@@ -45,9 +46,12 @@ Theorem C04_redraw_on_a_window : forall h hist lv k body,
 Proof. exact redraw_in_place_h. Qed.
 Print Assumptions C04_redraw_on_a_window.
 
-(* ... and not otherwise: [C04_frame_fits_rows] allows a frame of exactly [height] rows, and then the
-   top row is out of reach of the cursor-up and stays behind.  The harness keeps frames
-   below the window height (clipped cycles are out of the c04 monitor's domain). *)
+(* ... and not otherwise: a live region as tall as the window leaves its top row behind.  This was the pinned
+   tree's behaviour on a terminal (flush kept [height] rows); /repo "fix: a frame as tall as the terminal no
+   longer leaves stale rows behind" makes render hand flush height - 1, which the translator re-reads from the
+   source on every run ([C04_terminal_keeps_a_spare_row]); with [C04_frame_fits_rows] the hypothesis of
+   [C04_redraw_on_a_window] then holds for every frame.  The pty family replays the real bytes on a terminal of
+   the real size. *)
 Theorem C04_redraw_needs_a_spare_row :
   exists h lv body, Z.of_nat (length lv) = h /\
     apply_frame_h h lv (cuu_items h ++ body) <> body.
@@ -56,6 +60,22 @@ Proof.
   split; [reflexivity|]. vm_compute. discriminate.
 Qed.
 Print Assumptions C04_redraw_needs_a_spare_row.
+
+Theorem C04_terminal_keeps_a_spare_row : gen_terminal_height_adjust = (-1)%Z.
+Proof. exact terminal_keeps_a_spare_row. Qed.
+Print Assumptions C04_terminal_keeps_a_spare_row.
+
+(* every frame written while the flush height is h - 1 redraws exactly on a window of h rows *)
+Theorem C04_frames_redraw_on_the_terminal : forall p a d evs s wd h rows n pc pu hist lv body,
+  run (init_cst p a d) evs = Some s -> ph s = Rendering wd (h + gen_terminal_height_adjust) rows n pc pu -> 1 <= h ->
+  Z.of_nat (length lv) = Z.of_nat (length rows) -> forallb (fun i => negb (is_cuu i)) body = true ->
+  apply_frame_h h (hist ++ lv) (cuu_items (Z.of_nat (length rows)) ++ body) = hist ++ body.
+Proof.
+  intros p a d evs s wd h rows n pc pu hist lv body R P H L B.
+  pose proof (frame_fits_rows _ _ _ _ _ _ _ _ _ _ _ R P) as F. rewrite terminal_keeps_a_spare_row in F.
+  apply redraw_in_place_h; auto. lia.
+Qed.
+Print Assumptions C04_frames_redraw_on_the_terminal.
 
 Example C04_nonvacuous :
   exists s, run (init_cst false true false)
